@@ -9,9 +9,18 @@ import (
 	"github.com/titpetric/vuego/internal/parser"
 )
 
+// maxIncludeDepth bounds the nesting of <template include> (like the layout chain limit).
+const maxIncludeDepth = 100
+
 // evalInclude processes a <template include="..."> tag with the given vars map.
 // Handles stack push/pop properly using defer to ensure cleanup even on error.
 func (v *Vue) evalInclude(ctx VueContext, node *html.Node, vars map[string]any, depth int) ([]*html.Node, error) {
+	// A template that includes itself, directly or through other files, would recurse until
+	// the stack is exhausted (a fatal error that cannot be recovered): bound the nesting.
+	if len(ctx.TemplateStack) > maxIncludeDepth {
+		return nil, fmt.Errorf("include depth exceeded maximum of %d, possible circular include: %s", maxIncludeDepth, ctx.FormatTemplateChain())
+	}
+
 	ctx.stack.Push(vars)
 	defer ctx.stack.Pop()
 
